@@ -4,6 +4,22 @@ import json, sys
 
 ENGINE = "gsx"
 CHECKS = {
+ "C09": dict(
+   text="A chunk from the real send path is modified (any byte position x any non-zero symbolic delta), truncated/extended to every length with the size field adjusted, or produced under other keys, and delivered through the real Receive/readChunk/verifyAndDecrypt; it must be rejected and nothing may panic. The MAC is ideal (Ackermannised UF + 'a tag verifies only if issued for the same input').",
+   note="Bounds: single-chunk messages, Basic256Sha256 and Basic128Rsa15, Sign and SignAndEncrypt, one modified byte. Authenticity itself is the cryptographic idealisation (K-level); safety (no panic) is decided. Found and fixed: short-chunk panic. Trusted: go/ssa, gsx, cvc5.",
+   ref="DESIGN.md §5 C09"),
+ "C10": dict(
+   text="Two authentic chunks from the real send path are delivered through the real Receive followed by a verbatim copy of the first (directly, or after the second); the copy must not be delivered.",
+   note="On the unchanged tree this is violated and listed as a known finding (no receive-side sequence number check); the check prints KNOWN-FINDING and would report any other violation. Bounds: histories of 2-3 single-chunk messages. Trusted: go/ssa, gsx, cvc5.",
+   ref="DESIGN.md §5 C10"),
+ "C12": dict(
+   text="A reference sender written from Part 6 cuts one message into 2-3 chunks with symbolic starting sequence number (incl. the wrap to any value < 1024, 0 included), symbolic request ids, optional interleaved chunk or abort of another request; the real Receive/mergeChunks/DecodeService must deliver exactly the original message.",
+   note="Bounds: see evidence. Found and fixed: first chunk with sequence number 0 dropped. Trusted: go/ssa, gsx, cvc5, the reference sender in the harness.",
+   ref="DESIGN.md §5 C12"),
+ "C13": dict(
+   text="Frames with arbitrary (symbolic) bytes behind a plausible header, and OPN chunks with structured garbage, are fed to the real Receive on client and server channels in every mode: every Go run-time panic is an obligation. The buffering bound is checked on streams of intermediate chunks with symbolic request ids.",
+   note="Safety (no panic) within the stated lengths; the memory bound is violated on the unchanged tree and listed as a known finding; liveness is outside the claim. Found and fixed: short-chunk panic. Trusted: go/ssa, gsx, cvc5.",
+   ref="DESIGN.md §5 C13"),
  "C05": dict(
    text="uacp.Conn.Receive (with io.ReadFull/ReadAtLeast from their SSA) is executed on an arbitrary symbolic byte stream read through a TCP model whose reads return symbolic lengths; the result of every call is compared with a reference framing of the stream (deliver exactly the frame bytes; error for size < 8, size > buffer, truncation, ERR frames).",
    note="Bounds: streams up to 16/22 symbolic bytes, receive buffers {8,12,24}, up to 2/3 frames, every placement of <= 2/3 short reads plus byte-at-a-time. Trusted: go/ssa, gsx, z3, the reference framing in the harness.",
